@@ -306,6 +306,13 @@ for _p in ("C01", "C02", "C06", "C07"):
 CHECKS["C04"]["text"] += (" key.validate_key / split_key_string / weighted_score and KEY_TO_SEMITONE are REGENERATED from the "
                           "source on every run and proved equal to the key model (Props/C04_KeyGen.lean), incl. the documented "
                           "key-relationship table on the translated code.")
+CHECKS["C04"]["text"] += (" The event-metric glue — util._fast_hit_windows, util.match_events (distance=None), onset.f_measure, "
+                          "beat.f_measure, segment.detection, segment.deviation — is REGENERATED from the source on every run "
+                          "(translator part `evglue` -> lean/MirGen/EvGlue.lean); Props/C04_GenGlue.lean proves the first five "
+                          "equal to the hand models for all inputs (hit pairs = the tolerance predicate for unsorted / duplicated "
+                          "event lists, the hit dict + the proved Hopcroft-Karp transliteration, the empty-input returns, Python "
+                          "float division) and re-states the C04 / C05 / C07 statements on them; suite gen_evglue runs all six "
+                          "against the real functions.")
 CHECKS["C04"]["text"] += (" The documented default parameter values are proved (decide) to be the defaults of the signature "
                           "table regenerated from the source (Props/C04_Defaults.lean).")
 for _p in ("C09", "C10"):
